@@ -42,7 +42,7 @@ def A(cond, msg):
 def make(tier):
     P = Plan('C02', level='proof', design_ref='DESIGN.md section 5 C02')
     P.meta += ['structural induction over well-formed grammars: every combinator is proved correct against children that are arbitrary PEG parsers (any outcome, any value, any new offset per call), so a grammar assembled from proved combinators has the documented semantics; the case split over outcome tags is exhaustive for the calls that can occur']
-    P.not_decided += ['int_ / uint / float_ leaf parsers (iostream extraction)', 'basic_char_set / complement (std::unordered_set lookup: hash table heap code)', 'list, separator, recursive/base/grammar plumbing, skipper combinators (not built)',
+    P.not_decided += ['int_ / uint / float_ leaf parsers (iostream extraction)', 'basic_char_set / complement (std::unordered_set lookup: hash table heap code)', 'list, recursive/base/grammar plumbing, skipper::space / char_set (locale, hash table)',
                       'phrase_parse_stream / parse_string whole-input check (stream_to_string: iostream)', 'error message texts']
     cases = []   # (function name, body, what)
 
@@ -152,12 +152,49 @@ def make(tier):
             a = A('s_calls == 1 && s_off_at[0] == off0 && ord[0] == 3', 'phrase_parse runs the skipper first')
             a += (A('rc == %d && c_calls[1] == 0' % sk, 'a failing skipper fails the parse') if sk != 0 else A('c_calls[1] == 1 && off_at[1][0] == s_noff[0] && rc == %d' % l + (' && out == val[1][0]' if l == 0 else ''), 'then the parser runs at the position after the skipper; its result is returned'))
             lemma('h_phrase_%d%s' % (sk, '' if l is None else '_%d' % l), s, 'u32 out; u32 rc = vf_phrase_parse(&out);', a, 'phrase_parse: skipper %s%s' % (T[sk], '' if l is None else ', parser ' + T[l]))
+    # ---------------- skipper combinators over abstract sub-skippers (driven by the child script)
+    for l in (0, 1, 2):
+        for r in ((0, 1, 2) if l == 0 else (None,)):
+            s = '  res[1][0] = %d;%s\n' % (l, '' if r is None else ' res[2][0] = %d;' % r)
+            a = A(first1 + ' && c_calls[1] == 1 && s_calls == 0', 'the left skipper runs first, once, at the start position')
+            if l != 0:
+                a += A('rc == %d && c_calls[2] == 0' % l, 'a failing left skipper is the result; right does not run')
+            else:
+                a += A('c_calls[2] == 1 && off_at[2][0] == noff[1][0] && rc == %d' % r + (' && g_off == noff[2][0]' if r == 0 else ''), 'right runs once where left stopped; its outcome is the result')
+            lemma('h_skip_seq_%d%s' % (l, '' if r is None else '_%d' % r), s, 'u32 rc = vf_skip_sequence();', a, 'skipper::sequence: left %s%s' % (T[l], '' if r is None else ', right ' + T[r]))
+    for nm, cs in [('f', [1]), ('F', [2]), ('sf', [0, 1]), ('sF', [0, 2]), ('ssf', [0, 0, 1]), ('ssF', [0, 0, 2])]:
+        s = '  ' + ' '.join('res[1][%d] = %d;' % (i, c) for i, c in enumerate(cs)) + '\n'
+        k = len(cs) - 1
+        a = A('c_calls[1] == %d && off_at[1][0] == off0' % len(cs) + ''.join(' && off_at[1][%d] == noff[1][%d]' % (i, i - 1) for i in range(1, len(cs))), 'the skipper is applied repeatedly, each time where the previous application stopped, until the first failure')
+        a += A('rc == 2', 'a fatal error propagates') if cs[-1] == 2 else (A('rc == 0', 'a skipper repetition never fails') + A('g_off == %s' % ('off0' if k == 0 else 'noff[1][%d]' % (k - 1)), 'the input is rewound to the position after the last successful application'))
+        lemma('h_skip_rep_%s' % nm, s, 'u32 rc = vf_skip_repetition();', a, 'skipper::repetition: outcomes %s' % cs)
+    lemma('h_skip_epsilon', '', 'u32 rc = vf_skip_epsilon();', A('rc == 0 && g_off == off0 && g_gets == 0 && nord == 0', 'the epsilon skipper succeeds without consuming anything'), 'skipper::epsilon')
+    lemma('h_skip_literal', '  u8 c;\n', 'u32 rc = vf_skip_literal(c);',
+          A('rc == ((off0 < g_len && (__CPROVER_uninterpreted_ptext(off0) & 0xff) == c) ? 0 : 1)', 'skipper::literal{c} succeeds exactly when the next character is c') + A('VF_IMP(rc == 0, g_off == off0 + 1)', 'and consumes exactly it'), 'skipper::basic_literal')
+    # ---------------- separator = -(inner >> *(sep >> inner)) with the results joined into one vector
+    seps = [('f', [1], [], 0, 'off0', 0), ('F', [2], [], None, None, 2), ('i_f', [0], [1], 1, 's_noff[0]', 0), ('i_s_i_f', [0, 0], [0, 1], 2, 's_noff[2]', 0), ('i_s_f', [0, 1], [0], 1, 's_noff[0]', 0), ('i_s_F', [0, 2], [0], None, None, 2)]
+    for nm, c1, c2, n, off, rc in seps:
+        s = '  ' + ' '.join('res[1][%d] = %d;' % (i, c) for i, c in enumerate(c1)) + ' ' + ' '.join('res[2][%d] = %d;' % (i, c) for i, c in enumerate(c2)) + '\n'
+        a = A('off_at[1][0] == off0 && c_calls[1] == %d && c_calls[2] == %d' % (len(c1), len(c2)), 'inner is tried at the start position; separator and inner alternate until the first failure')
+        if rc == 2:
+            a += A('rc == 2', 'a fatal error propagates')
+        else:
+            a += A('rc == 0 && n == %d' % n + ''.join(' && out[%d] == val[1][%d]' % (i, i) for i in range(n)), 'separator never fails: exactly the elements parsed completely, in order (a separator without a following element is given back)')
+            a += A('g_off == %s' % off, 'the input is rewound to the end of the last complete element (a trailing separator is not consumed)')
+        lemma('h_separator_%s' % nm, s, 'u32 n, out[3]; u32 rc = vf_separator(&n, out);', a, 'separator: inner outcomes %s, separator outcomes %s' % (c1, c2))
     P.generated['c02_ghost.h'] = PRE
     P.generated['c02_h.c'] = HOOKS + '\n'.join(b for _, b, _ in cases)
     u = P.unit('c02', 'shim.cpp', harness=['c02_h.c'], pre=['c02_ghost.h'], inline=True, maxb=32)
     for name, body, what in cases:
-        bounded = name.startswith('h_rep')
-        u.lemma(name, cls='B' if bounded else 'P', unwind=40 if True else None, backends=['sat', 'cvc5'], native=False, timeout=900,
+        bounded = name.startswith('h_rep') or name.startswith('h_separator') or name.startswith('h_skip_rep')
+        kw = dict(backends=['sat', 'cvc5'], timeout=900)
+        if name.startswith('h_separator'):   # measured: 250-360 s (f, F, i_s_F), 650 s (i_f, i_s_f), > 900 s (i_s_i_f), cvc5 only (sat exceeds 12 GB)
+            kw = dict(backends=['cvc5'], stagger=0, timeout=1200)
+            if name in ('h_separator_i_f', 'h_separator_i_s_f'):
+                kw.update(tier='thorough', timeout=2400)
+            if name == 'h_separator_i_s_i_f':
+                kw.update(tier='thorough', timeout=3600, optional=True)
+        u.lemma(name, cls='B' if bounded else 'P', unwind=40, native=False,
                 bound='at most 3 iterations (the script of child outcomes ends with a failure within 3 calls); std::vector of results grows by push_back' if bounded else '',
-                what=what)
+                what=what, **kw)
     return P
